@@ -64,8 +64,15 @@ def main(tier):
                         import os
                         text = None
                     meta[cid] = (cname, env, name, delay, src, as_module)
-                    cases.append({"id": cid, "src": src if not as_module else "(require \"MODULE:%s\")" % name, "delay_ms": delay,
-                                  "setup": PROBE_SETUP, "probe": PROBE, "timeout_ms": 25000, "_env": cname})
+                    # delays above 10 ms count from the moment the program reports that it runs (verif-tick "go"), so that a
+                    # slow compilation cannot move the request in front of the VM loop; delays <= 10 ms stay relative to
+                    # the call of Engine::run on purpose (requests that land during compilation)
+                    synced = delay > 10
+                    text = ('(verif-tick "go")\n' + src) if synced else src
+                    meta[cid] = (cname, env, name, delay, text, as_module)
+                    cases.append({"id": cid, "src": text if not as_module else "(require \"MODULE:%s%s\")" % ("S-" if synced else "", name),
+                                  "delay_ms": delay, "setup": PROBE_SETUP, "probe": PROBE, "timeout_ms": 25000, "_env": cname,
+                                  "wait_tick": "go" if synced else ""})
     # module mode: write the shapes to files once
     import os
     moddir = os.path.join(core.SCRATCH, "c17-modules-%d" % os.getpid())
@@ -73,6 +80,8 @@ def main(tier):
     for name, src in SHAPES.items():
         with open(os.path.join(moddir, name + ".scm"), "w") as f:
             f.write(src + "\n")
+        with open(os.path.join(moddir, "S-" + name + ".scm"), "w") as f:
+            f.write('(verif-tick "go")\n' + src + "\n")
     for c in cases:
         if c["src"].startswith("(require \"MODULE:"):
             nm = c["src"][len("(require \"MODULE:"):-2]
@@ -140,7 +149,8 @@ def main(tier):
 def replay(path):
     d = json.load(open(path))["replay"]
     src = d["src"]
-    res, _ = core.run_cases([{"id": "r", "src": src, "delay_ms": d["delay_ms"], "setup": PROBE_SETUP, "probe": PROBE, "timeout_ms": 25000}],
+    res, _ = core.run_cases([{"id": "r", "src": src, "delay_ms": d["delay_ms"], "setup": PROBE_SETUP, "probe": PROBE, "timeout_ms": 25000,
+                              "wait_tick": "go" if 'verif-tick "go"' in src else ""}],
                             subcmd="intr", env=d.get("config"), shards=1)
     r = res["r"]
     print(json.dumps(r, indent=1))
